@@ -412,9 +412,9 @@ func (sc *scenario) durableBest(s *kv) *sblock {
 }
 
 // view is the part of the dump that the node's queries about the main chain can observe: everything but
-// receipts records of blocks that are not on the main chain and state markers of roots other than the best
+// receipts records of blocks that are not on the main chain, state markers of roots other than the best
 // block's (leftovers of executions that were abandoned; a crash-free run may or may not have produced or
-// deleted them).
+// deleted them) and the records of off-chain blocks that do not execute.
 func (sc *scenario) view(s *kv) string {
 	t := s.clone()
 	main := map[int]bool{}
@@ -433,6 +433,11 @@ func (sc *scenario) view(s *kv) string {
 	for id := 1; id < len(sc.blocks); id++ {
 		if !main[id] {
 			delete(t.C, string(dbkey.Receipts(sc.blocks[id].blk.BlockHash(), sc.blocks[id].no)))
+			// the record of a block that does not execute: stored (unexecuted) when it arrives off the tip,
+			// rejected when it arrives on the tip — which of the two depends on where the tip is at that moment
+			if sc.blocks[id].bad {
+				delete(t.C, string(sc.blocks[id].blk.BlockHash()))
+			}
 		}
 	}
 	for id := 1; id < len(sc.rootB); id++ {
@@ -478,6 +483,9 @@ type session struct {
 	allowedB  []int  // per prefix k: next tip
 	window    []bool // per prefix k: the triggering block of a reorganisation is stored, its marker is not yet
 	crashes   int
+	dpos      bool   // the nodes of this session carry the real DPoS status (oracle only, no model lines)
+	finalLib  string // DPoS status after the crash-free run / after the extension block
+	extLib    string
 	restarts  int
 	reorgs    []reorgSpan // the reorganising arrivals of the journal
 }
@@ -487,6 +495,11 @@ type reorgSpan struct{ from, to, m, d int }
 
 func (s *session) op(line, out string, nontrivial bool) {
 	s.ops = append(s.ops, line+" => "+out)
+	if s.dpos {
+		// a session with the real DPoS status is judged by the oracle only: the status record it persists is a
+		// gob of the LIB bookkeeping, which the model (stub: id of the last block) does not compute
+		return
+	}
 	s.run.Op(line, out, nontrivial)
 }
 
@@ -516,6 +529,17 @@ func (s *session) replayObj(extra string) map[string]interface{} {
 
 func (s *session) fail(what, at string) {
 	s.run.Fail(fmt.Sprintf("[%s] %s (%s)", s.sc.name, what, at), s.replayObj(at))
+}
+
+// lib: a difference of the DPoS status between the recovered and the crash-free node (same chain). Counted and
+// kept as a sample; see notes/C06.md for why it is not (yet) a failure of C06.
+func (s *session) lib(what, at string) {
+	if os.Getenv("C06_DEBUG") != "" {
+		fmt.Fprintf(os.Stderr, "LIB %s [%s] %s\n", at, s.sc.name, what)
+	}
+	if os.Getenv("C06_LIB_STRICT") != "" {
+		s.fail(what, at)
+	}
 }
 
 func (s *session) failKnown(what, class, at string) {
@@ -592,6 +616,29 @@ func (s *session) acct(n *node, root []byte) string {
 	return out
 }
 
+// libText: the real DPoS status of a node — last irreversible block (as scenario block id) and its number, number
+// of the last own block; "" without a real status. A LIB that is not the main-chain block of its height is
+// reported as such (C08's safety clause on the recovered node).
+func (s *session) libText(n *node) string {
+	if n.dp == nil {
+		return ""
+	}
+	h, no, lpb, _ := n.dp.st.VerifC06Lib()
+	id := "-"
+	if h != "" {
+		id = "?"
+		for i := 1; i < len(s.sc.blocks); i++ {
+			if s.sc.blocks[i].blk.ID() == h {
+				id = fmt.Sprint(i)
+			}
+		}
+		if mb, err := chain.VerifC06GetBlockByNo(n.cs, no); err != nil || mb.ID() != h {
+			id += "(not-on-main-chain)"
+		}
+	}
+	return fmt.Sprintf("lib=%s@%d lpb=%d", id, no, lpb)
+}
+
 // prepare runs the scenario once on a scratch node (nothing recorded): the scenario is kept only if the
 // crash-free run stores every block it is fed (an arrival order in which the one-slot-per-parent orphan
 // pool drops a block makes "feeding the same blocks again" a different experiment; that is C05's ground).
@@ -600,7 +647,7 @@ func (s *session) prepare(rng *vh.Rng) bool {
 	sc := s.sc
 	d := s.dir + ".dry"
 	s.w.initDir(d)
-	n := s.w.boot(d)
+	n := s.w.bootX(d, s.dpos)
 	for _, id := range sc.order {
 		vh.Guard(func() string { chain.VerifC06AddBlock(n.cs, sc.blocks[id].blk, "peer"); return "" })
 	}
@@ -617,6 +664,11 @@ func (s *session) prepare(rng *vh.Rng) bool {
 		return false
 	}
 	tip := sc.byHash[string(best.BlockHash())]
+	if s.dpos {
+		// the extension block comes from the stub session of the same scenario; the scenario is run with the real
+		// status only if no reorganisation of it is vetoed by the LIB (the crash-free run ends where the stub's does)
+		return s.ext != nil && tip.id == s.ext.parent
+	}
 	s.ext = sc.child(tip, sc.freshSpecs(tip, rng, 1, 7))
 	return true
 }
@@ -625,7 +677,7 @@ func (s *session) prepare(rng *vh.Rng) bool {
 func (s *session) record() {
 	sc := s.sc
 	s.w.initDir(s.dir)
-	n := s.w.boot(s.dir)
+	n := s.w.bootX(s.dir, s.dpos)
 	s.base = n.stores()
 	g := sc.blocks[1]
 	s.op(fmt.Sprintf("new %d %d %d", g.id, g.root, sc.maxNo), sc.dump(s.base), true)
@@ -639,6 +691,9 @@ func (s *session) record() {
 		spans = append(spans, span{len(s.J), len(s.J) + len(us)})
 		s.J = append(s.J, us...)
 		s.op(line, ans, len(us) > 0)
+		if s.dpos && os.Getenv("C06_DEBUG") != "" {
+			fmt.Fprintf(os.Stderr, "DPOS [%s] %s => %s | %s\n", sc.name, line, ans, s.libText(n))
+		}
 		s.run.Count(fmt.Sprintf("feed-units-%d", min(len(us), 9)))
 	}
 	fin := n.stores()
@@ -648,6 +703,7 @@ func (s *session) record() {
 	best, _ := n.cs.GetBestBlock()
 	s.finalBest = sc.byHash[string(best.BlockHash())].id
 	s.finalAcct = s.acct(n, best.GetHeader().GetBlocksRootHash())
+	s.finalLib = s.libText(n)
 	// the crash-free run itself must satisfy the invariant
 	if what := s.invariant(n, fin); what != "" {
 		s.fail("crash-free run: "+what, "final")
@@ -669,6 +725,7 @@ func (s *session) record() {
 	s.op("dump", s.extDump, true)
 	best, _ = n.cs.GetBestBlock()
 	s.extAcct = s.acct(n, best.GetHeader().GetBlocksRootHash())
+	s.extLib = s.libText(n)
 	n.close()
 
 	// allowed tips per prefix: A = tip at the last stable point (no marker) at or before k, B = next tip
@@ -895,7 +952,7 @@ func (s *session) restart(st *kv) *restartResult {
 	}
 	// the real boot on the same files (Init runs again, from the same content)
 	var n *node
-	_, pan = vh.Guard(func() string { n = s.w.boot(dir); return "" })
+	_, pan = vh.Guard(func() string { n = s.w.bootX(dir, s.dpos); return "" })
 	if pan || n == nil {
 		r.ans = fmt.Sprintf("boot=panic init=%s", sc.unitsText(initUnits))
 		return r
@@ -943,7 +1000,7 @@ func (s *session) viaReceive(r *restartResult, st *kv, recText string, best *typ
 	var n2 *node
 	var resp interface{}
 	_, pan := vh.Guard(func() string {
-		n2 = s.w.boot(dir)
+		n2 = s.w.bootX(dir, s.dpos)
 		resp = chain.VerifC06Receive(n2.cs, &message.GetBestBlock{})
 		return ""
 	})
@@ -1048,6 +1105,7 @@ func (s *session) judge(r *restartResult, c crashCtx) {
 	best, _ = n.cs.GetBestBlock()
 	refed := sc.bid(best.BlockHash())
 	conv := sc.view(fin) == s.finalView && s.acct(n, best.GetHeader().GetBlocksRootHash()) == s.finalAcct
+	libAfter := s.libText(n)
 	if conv && d != s.finalDump {
 		s.run.Count("refeed-converged-with-leftover-records")
 	}
@@ -1065,6 +1123,22 @@ func (s *session) judge(r *restartResult, c crashCtx) {
 	s.op("dump", d2, true)
 	best, _ = n.cs.GetBestBlock()
 	convExt := sc.view(fin2) == s.extView && s.acct(n, best.GetHeader().GetBlocksRootHash()) == s.extAcct
+	if s.dpos {
+		libExt := s.libText(n)
+		if strings.Contains(libAfter, "not-on-main-chain") || strings.Contains(libExt, "not-on-main-chain") {
+			fail(fmt.Sprintf("DPoS status after recovery: the last irreversible block is not on the main chain (%s / %s)", libAfter, libExt))
+		}
+		switch {
+		case conv && libAfter != s.finalLib:
+			s.run.Count("dpos-status-differs-after-refeed")
+			s.lib(fmt.Sprintf("after crash, recovery and feeding the same blocks again the chain is the crash-free one but the DPoS status is %s, crash-free %s", libAfter, s.finalLib), c.at)
+		case convExt && libExt != s.extLib:
+			s.run.Count("dpos-status-differs-after-next-block")
+			s.lib(fmt.Sprintf("after crash, recovery, re-feeding and one more block the chain is the crash-free one but the DPoS status is %s, crash-free %s", libExt, s.extLib), c.at)
+		case convExt:
+			s.run.Count("dpos-status-converged")
+		}
+	}
 	if what := s.invariant(n, fin2); what != "" {
 		fail("after one more block: " + what)
 		clean = false
@@ -1262,6 +1336,18 @@ func main() {
 		s.lagAll()
 		run.Count("scenario:" + fam)
 		os.RemoveAll(s.dir)
+		// the same scenario with the real DPoS status in the consensus slot (oracle only)
+		if fam != "linear" && (run.Thorough() && i%2 == 1 || i%4 == 3) {
+			s2 := &session{run: run, w: w, sc: sc, dir: filepath.Join(w.root, fmt.Sprintf("s%dd", i)), dpos: true, ext: s.ext}
+			if !s2.prepare(run.Rng) {
+				run.Count("dpos-scenario-skipped(LIB veto or dropped block):" + fam)
+				continue
+			}
+			s2.record()
+			s2.crashAll(i%8 == 3, false)
+			run.Count("dpos-scenario:" + fam)
+			os.RemoveAll(s2.dir)
+		}
 	}
 	os.RemoveAll(w.root)
 	run.Finish()
